@@ -1,9 +1,11 @@
 SPECIFICATION Spec
 CONSTANTS
+  Fams = {"reuse", "stdin", "exit", "ctx"}
   MaxRuns = 3
   RunKinds = {"plain", "setglob", "setfs", "csvhdr", "setmodes", "openout", "exit3", "errfunc", "errforin", "cancel", "rand", "srand5", "midfile", "match", "p_io", "p_func"}
   RunCfgs = {"c0", "c1", "c2"}
   LastKinds = {"plain", "p_io", "p_func"}
   LastCfgs = {"c0"}
   ResetsAnywhere = FALSE
+  Deep = FALSE
 CHECK_DEADLOCK FALSE
